@@ -4,6 +4,7 @@ package main
 // in the same format as the Lean driver.  Every call is wrapped in recover() and a watchdog.
 
 import (
+	"unsafe"
 	"os"
 	"bytes"
 	"crypto/rand"
@@ -166,7 +167,7 @@ func parseSuite(s string) (otp.Suite, string, bool) {
 			return nil, "suite-err", true
 		}
 		return su, "", true
-	case "C", "M", "S":
+	case "C", "M", "S", "X":
 		c, ok := parseCfgFields(f)
 		if !ok {
 			return nil, "", false
@@ -175,6 +176,20 @@ func parseSuite(s string) (otp.Suite, string, bool) {
 		case "C":
 			return c, "", true
 		case "M":
+			return otp.RawSuite{SuiteConfig: c}, "", true
+		case "X":
+			// a suite obtained from a constructor (for a registered name), then edited through its exported embedded
+			// configuration: whatever the constructor established about the old fields says nothing about the new ones
+			names := otp.ListSuites()
+			sort.Strings(names)
+			if len(names) > 0 {
+				if su, err := otp.NewRawSuite(names[len(c.Raw)%len(names)]); err == nil {
+					if rs, ok := su.(otp.RawSuite); ok {
+						rs.SuiteConfig = c
+						return rs, "", true
+					}
+				}
+			}
 			return otp.RawSuite{SuiteConfig: c}, "", true
 		default:
 			su, err := otp.NewSuite(c)
@@ -300,6 +315,35 @@ func showCfg(c otp.SuiteConfig) string {
 		int(c.PasswordHash), c.TimeStep)
 }
 
+// forgeMono returns the instant (s, n) carrying the current monotonic reading.  time.Time is {wall uint64; ext int64; loc};
+// with a monotonic reading wall = 1<<63 | seconds since 1885 (33 bits) << 30 | nanoseconds and ext is the reading.  The
+// result is checked through the public accessors, so a different layout makes the caller fall back to a wall-only time.
+func forgeMono(s, n int64) (time.Time, bool) {
+	const unixToInternal = (1969*365 + 1969/4 - 1969/100 + 1969/400) * 86400
+	const wallToInternal = (1884*365 + 1884/4 - 1884/100 + 1884/400) * 86400
+	w := s + unixToInternal - wallToInternal
+	if w < 0 || w >= 1<<33 || n < 0 || n >= 1000000000 {
+		return time.Time{}, false
+	}
+	t := time.Now()
+	if unsafe.Sizeof(t) != 24 {
+		return time.Time{}, false
+	}
+	p := (*struct {
+		wall uint64
+		ext  int64
+		loc  *time.Location
+	})(unsafe.Pointer(&t))
+	if p.wall>>63 == 0 {
+		return time.Time{}, false
+	}
+	p.wall = 1<<63 | uint64(w)<<30 | uint64(n)
+	if t.Unix() != s || int64(t.Nanosecond()) != n || !strings.Contains(t.String(), " m=") {
+		return time.Time{}, false
+	}
+	return t, true
+}
+
 func mkTime(sec, nsec, zone, mono string) (time.Time, bool) {
 	s, e1 := strconv.ParseInt(sec, 10, 64)
 	n, e2 := strconv.ParseInt(nsec, 10, 64)
@@ -308,7 +352,16 @@ func mkTime(sec, nsec, zone, mono string) (time.Time, bool) {
 		return time.Time{}, false
 	}
 	var t time.Time
-	if mono == "1" {
+	if mono == "2" {
+		// a wall clock that was stepped: the monotonic reading is the process's current one (it advances by microseconds
+		// from call to call) while the wall part says `s` — what time.Now() returns before and after an NTP step or a
+		// suspend.  Two such values compare by their monotonic readings (Before/After/Sub), not by their wall clocks.
+		if ft, ok := forgeMono(s, n); ok {
+			t = ft
+		} else {
+			t = time.Unix(s, n)
+		}
+	} else if mono == "1" {
 		// a time carrying a monotonic reading: take Now() and shift it (Add keeps the monotonic part)
 		now := time.Now()
 		t = now.Add(time.Unix(s, n).Sub(now))
@@ -317,6 +370,9 @@ func mkTime(sec, nsec, zone, mono string) (time.Time, bool) {
 		}
 	} else {
 		t = time.Unix(s, n)
+	}
+	if mono != "0" && strings.Contains(t.String(), " m=") {
+		return t, true // UTC / Local / In drop the monotonic reading: such an instant is passed as the clock gave it
 	}
 	switch {
 	case z == 0:
